@@ -11,12 +11,20 @@
 (*            input unchanged (returning or raising)                          *)
 (*   Gate     different dimensions, not both members -> InvalidUnitEquivalence*)
 (*   Total    a covered request on 8-byte data returns (narrower data may be   *)
-(*            refused: there may be no float type to hold the result)         *)
+(*            refused: there may be no float type to hold the result), whatever *)
+(*            unit the TARGET is expressed in - incl. the offset scales degC,   *)
+(*            degF.  Not demanded of an INPUT that is a reading on an offset    *)
+(*            scale (the library refuses arithmetic on such readings, loudly,   *)
+(*            and documents that; but if it returns, Formula applies)           *)
 (*   Formula  its numbers are the defining formula (Equiv!Phi) of the input,  *)
 (*            wherever that number lies in the normal range of the RESULT's   *)
 (*            float type (rep; matched by the harness at the coarser of the   *)
 (*            input's and the result's precision): never inf/nan/garbage      *)
-(*            where the formula value is representable                        *)
+(*            where the formula value is representable.  The specification's  *)
+(*            numbers are absolute; a result on an offset scale is read as    *)
+(*            (y + off) * scale with the exact offsets of Equiv!Offsets, and   *)
+(*            rep also requires that the absolute value is not much smaller    *)
+(*            than the offset (else the reading cannot carry it)               *)
 (*   Width    the result's float type is at least as wide as the input's item *)
 (*            size (a narrower one could not hold "the formula's value" of    *)
 (*            that input; C17 demands the same of plain conversions)          *)
@@ -33,7 +41,8 @@
 (* Not demanded: same-dimension requests (plain conversion, C03; the          *)
 (* equivalence is ignored there - asserted by the repository's tests), what a *)
 (* failed in-place call leaves behind (C18), result class/dtype (C16/C17),    *)
-(* keyword arguments an equivalence does not take, offset temperature units.  *)
+(* keyword arguments an equivalence does not take, that a covered request on  *)
+(* an input in degC/degF returns.                                             *)
 (* T: the observation equals Equiv!Outcome on the observed object.            *)
 EXTENDS Equiv, IOUtils
 Traces == JsonDeserialize(IOEnv.C09_OBS)
@@ -84,7 +93,7 @@ StepP(e) ==
       twins == {p \in direct : p.eq = e.eq /\ p.k = e.k /\ p.tu = e.tu} IN
   /\ (copy /\ o.pre # o.post) => Fail("Pure", e, [pre |-> o.pre, post |-> o.post])
   /\ (unc /\ ~(o.k = "raise" /\ o.exc = "InvalidUnitEquivalence")) => Fail("Gate", e, [k |-> o.k, exc |-> o.exc])
-  /\ (cov /\ o.k # "ok" /\ Bytes(cur.dt) = 8) => Fail("Total", e, [k |-> o.k, exc |-> o.exc])
+  /\ (cov /\ o.k # "ok" /\ Bytes(cur.dt) = 8 /\ ~IsOffset(cur.u)) => Fail("Total", e, [k |-> o.k, exc |-> o.exc])
   /\ (cov /\ o.k = "ok" /\ Bytes(o.dt) < Bytes(cur.dt)) => Fail("Width", e, [input |-> cur.dt, result |-> o.dt])
   /\ formulaBad => Fail("Formula", e, [observed |-> o.approx, expected |-> fv])
   /\ (cov /\ o.k = "ok" /\ ~o.ueq) => Fail("Unit", e, [unit |-> o.unit])
